@@ -112,7 +112,9 @@ Aux:
 					}
 					switch {
 					case lam.isKeyParam(string(sym)):
-						ss.Let(sym, args[ai])
+						if !ss.boundHere(string(sym)) { // the first occurrence wins
+							ss.Let(sym, args[ai])
+						}
 					case strings.EqualFold(string(sym), "allow-other-keys"):
 						// always allowed
 					case !lam.allowOtherKeys(keyArgs):
